@@ -12,6 +12,7 @@ import (
 	"path/filepath"
 	"runtime"
 	"sort"
+	"strconv"
 	"strings"
 	"sync"
 	"time"
@@ -494,6 +495,14 @@ func runWorld(in *RunInput) *Result {
 		tr.Proxy = nil
 	}
 
+	// debugging aid: goroutine dump at a simulated instant (seconds)
+	if at, err := strconv.ParseFloat(os.Getenv("VERIF_DUMP_AT"), 64); err == nil && at > 0 {
+		go func() {
+			time.Sleep(time.Duration(at * float64(time.Second)))
+			buf := make([]byte, 16<<20)
+			os.Stderr.Write(buf[:runtime.Stack(buf, true)])
+		}()
+	}
 	// frp's logger -> memory
 	w.sink = &logSink{w: w, keep: in.KeepLog}
 	level := golog.DebugLevel
